@@ -257,3 +257,40 @@ pattern_harness!(c09_patterns_n3_t3, 3, [1, 2, 1, 3]);
 pattern_harness!(c09_patterns_n4_t1, 4, [0, 1, 2, 3]);
 pattern_harness!(c09_patterns_n4_t2, 4, [255, 0, 255, 0]);
 pattern_harness!(c09_patterns_n4_t3, 4, [1, 2, 1, 3]);
+
+/// Stability beyond std's small-slice insertion sort (> 20 elements): two concrete 12-radial sweeps
+/// whose azimuth numbers collide pairwise; ties must come out first-then-second.  Concrete input:
+/// the solver merely executes it (the symbolic merge harnesses stop at 3 + 2 radials).
+#[kani::proof]
+#[kani::unwind(26)]
+fn c09_merge_stable_12_12_concrete() {
+    let e = 3u8;
+    let mut v1 = Vec::with_capacity(12);
+    let mut v2 = Vec::with_capacity(12);
+    let mut i = 0u16;
+    while i < 12 {
+        v1.push(mk(i as i64, 1 + i, e)); // azimuth numbers 1..=12
+        v2.push(mk((12 + i) as i64, 1 + (i + 7) % 12, e)); // the same numbers, rotated by 7
+        i += 1;
+    }
+    let m = match Sweep::new(e, v1).merge(Sweep::new(e, v2)) {
+        Ok(m) => m,
+        Err(e) => {
+            core::mem::forget(e);
+            panic!("C09: merging equal elevation numbers failed")
+        }
+    };
+    let rs = m.radials();
+    assert!(rs.len() == 24, "C09: merge lost or duplicated radials");
+    let mut k = 0;
+    while k < 24 {
+        // expected: azimuth 1 (first, second), azimuth 2 (first, second), ...
+        let az = 1 + (k / 2) as u16;
+        assert!(rs[k].azimuth_number() == az, "C09: merge result not ordered by azimuth number");
+        let from_second = rs[k].collection_timestamp() >= 12;
+        assert!(from_second == (k % 2 == 1), "C09: ties not in first-then-second order");
+        k += 1;
+    }
+    wit!(rs.len() == 24);
+    core::mem::forget(m);
+}
